@@ -98,6 +98,15 @@ class CallGraph:
         return [n for n in walk_local(fn) if isinstance(n, ast.Call)]
 
     def _collect_field_types(self):
+        self.attr_types = {}       # dunder attribute set on foreign objects: `fn.__ptera_stack__ = Class(...)` -> {attr: class qual}
+        for q, fi in self.repo.functions.items():
+            for n in walk_local(fi.node):
+                if isinstance(n, ast.Assign) and isinstance(n.value, ast.Call):
+                    cq = self._class_of_name(n.value.func, fi.module)
+                    if cq:
+                        for t in n.targets:
+                            if isinstance(t, ast.Attribute) and not (isinstance(t.value, ast.Name) and t.value.id == "self") and t.attr.startswith("__"):
+                                self.attr_types[t.attr] = cq
         for q, fi in self.repo.functions.items():
             if fi.cls is None:
                 continue
@@ -180,6 +189,8 @@ class CallGraph:
                             ft = self.field_types.get((fi.cls, val.attr))
                             if ft:
                                 out[t.id] = ft
+                        elif isinstance(val, ast.Attribute) and val.attr in self.attr_types:
+                            out[t.id] = self.attr_types[val.attr]
             if isinstance(n, ast.Assign) and len(n.targets) > 1 and isinstance(n.value, ast.Call):
                 cq = self._class_of_name(n.value.func, fi.module)
                 if cq:
@@ -266,21 +277,19 @@ class CallGraph:
                 elif isinstance(recv, ast.Attribute) and isinstance(recv.value, ast.Name) and recv.value.id == "self" and fi.cls:
                     for c in repo.mro(fi.cls):
                         cq = cq or self.field_types.get((c, recv.attr))
+                elif isinstance(recv, ast.Attribute) and recv.attr in self.attr_types:
+                    cq = self.attr_types[recv.attr]
                 if cq:
                     m = repo.resolve_method(cq, f.attr)
                     if m:
                         return [m.qual], None, "typed"
-            if f.attr in BUILTIN_METHODS and not (f.attr in ("pop", "push") and self._looks_like_stack(recv)):
+            if f.attr in BUILTIN_METHODS:
                 return [], f"<obj>.{f.attr}", "builtin-method"
             cands = [q for q, x in repo.functions.items() if x.cls and q.endswith("." + f.attr) and q.count(".") == x.cls.count(".") + 1]
             if cands:
                 return cands, None, "by-name"
             return [], d or f"<expr>.{f.attr}", "unknown"
         return [], None, "dynamic"
-
-    @staticmethod
-    def _looks_like_stack(recv):
-        return isinstance(recv, ast.Name) and recv.id == "st"
 
     # ------------------------------------------------------------------------------- may-raise summaries
     def exc_subclass(self, a, b):
